@@ -22,6 +22,7 @@ Sig(t) ==
       [] t = "sum2"  -> <<"a", <<"a", "a">>>>
       [] t = "sum3"  -> <<"a", <<"a", "a", "a">>>>
       [] t = "prod2" -> <<"a", <<"a", "a">>>>
+      [] t = "prod3" -> <<"a", <<"a", "a", "a">>>>
       [] t = "neg"   -> <<"a", <<"a">>>>
       [] t = "pow2"  -> <<"a", <<"a">>>>             \* e ** 2
       [] t = "powc"  -> <<"a", <<"a">>>>             \* 2 ** e  (small e only evaluates)
